@@ -3,6 +3,11 @@ import vf
 from props import c01
 
 SPEC = c01.spec("C04", "pf_c04")
+# translator tie of the header checks (C04_header_checks_is_translated, Proofs/HeaderRefine.v)
+SPEC["uses_gen"] = list(SPEC["uses_gen"]) + ["HeaderChecks"]
+SPEC["trusted_base"] = list(SPEC["trusted_base"]) + [
+    "header checks: Model/Ledger.v verify_header is PROVED equal to Gen/HeaderChecks.v, regenerated on this run by /verif/translator (stage3.go) from Blockchain.verifyBlockHeader; conventions of that translation: the result of bc.Head(tx) is an input (its BkSeq / Time fields, its error — None in the model: a failing db read is not modelled), the two hash comparisons (PrevHash vs head.HashHeader(), Body.Hash() vs BodyHash) are boolean inputs because hashes are data; still hand-written and compared with the node per op: the signature check, isGenesisBlock, verifyUxHash, the block-tree duplicate check and their order around verifyBlockHeader",
+]
 
 
 def run(ctx):
